@@ -510,7 +510,7 @@ omit hN hz hwf hlex in
 /-- the plural cases of parsePlural: the state is not touched; the cases and the default
     built from well-shaped switch cases are well shaped -/
 theorem pluralCases_safe : ∀ (n : Nat) (cs acc : NodeList) (d : Option Node) (st : FState)
-    (Q : NodeList × Option Node → FState → Prop), cs.length = n → (casesOK cs ∧ NPL S cs) → (pcasesOK acc ∧ NPL S acc) →
+    (Q : NodeList × Option Node → FState → Prop), cs.length = n → (casesOK cs ∧ NPL S cs ∧ casesV EL S cs) → (pcasesOK acc ∧ NPL S acc) →
     (∀ d0, d = some d0 → listOK d0 ∧ NP S d0) → Inv EL S st.p →
     (∀ r, (pcasesOK r.1 ∧ NPL S r.1) → (∀ d0, r.2 = some d0 → listOK d0 ∧ NP S d0) → Q r st) →
     FSafe AP EL S (pluralCases cs acc d) st Q := by
@@ -527,9 +527,10 @@ theorem pluralCases_safe : ∀ (n : Nat) (cs acc : NodeList) (d : Option Node) (
     | nil => unfold pluralCases; exact FSafe.pure (hq _ hacc hd)
     | cons c rest =>
       have hl' : rest.length = k := by simp only [NodeList.length] at hl; omega
-      obtain ⟨hsc, hnp⟩ := hsc0
+      obtain ⟨hsc, hnp, hcv⟩ := hsc0
       unfold casesOK at hsc
       simp only [NPL] at hnp
+      simp only [casesV] at hcv
       unfold pluralCases
       split
       · rename_i pos values body
@@ -537,16 +538,16 @@ theorem pluralCases_safe : ∀ (n : Nat) (cs acc : NodeList) (d : Option Node) (
         have hnb := hnp.1
         simp only [NP] at hnb
         split
-        · exact ih _ _ _ st Q hl' ⟨hsc.2, hnp.2⟩ hacc
+        · exact ih _ _ _ st Q hl' ⟨hsc.2, hnp.2, hcv.2⟩ hacc
             (fun d0 h => by simp only [Option.some.injEq] at h; subst h; exact ⟨hb, hnb.2.2⟩) hi hq
         · split
-          · refine ih _ _ _ st Q hl' ⟨hsc.2, hnp.2⟩ ⟨?_, ?_⟩ hd hi hq
+          · refine ih _ _ _ st Q hl' ⟨hsc.2, hnp.2, hcv.2⟩ ⟨?_, ?_⟩ hd hi hq
             · apply pcasesOK_append _ _ _ rfl hacc.1
               exact ⟨hb, trivial⟩
             · apply NPL_append _ _ hacc.2
               simp only [NPL, NP]
               exact ⟨⟨hnb.1, hnb.2.2⟩, trivial⟩
-          · exact ferrorf_safe hi
+          · exact ferrorfAt_safe hcv.1
       · rename_i hnot
         exfalso
         have := hsc.1
